@@ -41,7 +41,7 @@ def string_root(fn):
     return root, cap_load, dest, ptr, dmaxp
 
 
-def analyse(ck, prog, name, unit, report):
+def analyse(ck, prog, name, unit, report, ck_floor=True):
     fn = prog.funcs.get(name)
     if fn is None:
         ck.fail_broken("tokenizer %s not found" % name); return {}
@@ -65,10 +65,31 @@ def analyse(ck, prog, name, unit, report):
                 r, off = A.ptr(i["ops"][0])
                 if r != root["id"]:
                     continue
-                n = A.lin(sd[-1]["ops"][0]).scale(unit) if sd else None
-                if n is None:
+                # the matching store of the remaining length: in this block, else the first one in a block this block dominates
+                # (a conditional expression for the length puts it behind a merge)
+                sd2, at = (sd[-1], b["id"]) if sd else (None, None)
+                if sd2 is None:
+                    for b2 in fn.order:
+                        if b2 != b["id"] and fn.dominates(b["id"], b2):
+                            cand = [j for j in fn.blocks[b2]["insts"] if j["op"] == "store" and j["ops"][1].get("k") == "v" and j["ops"][1]["id"] == dmaxp["id"]]
+                            if cand:
+                                sd2, at = cand[0], b2
+                                break
+                if sd2 is None:
                     continue
-                ok = ctx.entail_at(b["id"], cap0 - off - n) and ctx.entail_at(b["id"], off)
+                # alternatives of a merged length value are judged where they come from
+                alts = [(sd2["ops"][0], at)]
+                dv = fn.defs.get(sd2["ops"][0].get("id")) if sd2["ops"][0].get("k") == "v" else None
+                if dv is not None and dv["op"] == "phi" and dv["_bb"] not in fn.loops:
+                    alts = [(x["v"], x["bb"]) for x in dv["incoming"]]
+                elif dv is not None and dv["op"] == "select":
+                    alts = [(dv["ops"][1], at), (dv["ops"][2], at)]
+                ok = True
+                for (o_, where_) in alts:
+                    n = A.lin(o_).scale(unit)
+                    if not (ctx.entail_at(where_, cap0 - off - n) and ctx.entail_at(where_, off)):
+                        ok = False
+                n = A.lin(sd2["ops"][0]).scale(unit)
                 pair_sites.append((i.get("line"), ok))
                 out.append(dict(fn=name, line=i.get("line"), kind="T", what="continuation pair", root=root["id"], role="string", off=repr(off), size=repr(n), cap=repr(cap0),
                                 lo=True, hi=bool(ok), dead=False, ordinal=len(pair_sites), const_index=False))
@@ -204,6 +225,8 @@ def analyse(ck, prog, name, unit, report):
                                                                                          *[x for sh in sorted(shape) for x in (sh[1] or "no extension", sh[2])][0:2]))
     if nE < 2:
         ck.fail_broken("%s: fewer than 2 string-vs-delimiter character comparisons found (%d)" % (name, nE))
+    if nT < 1 and ck_floor:
+        ck.fail_broken("%s: no (*ptr, *dmaxp) continuation pair found: rule T would pass vacuously" % name)
     return dict(bounds_obligations=nB, continuation_pairs=nT, delimiter_limit_exits=nD, stores_into_string=nZ, token_returns=nP, continuation_steps=nQ, delimiter_comparisons=nE)
 
 
